@@ -330,6 +330,42 @@ func hashValues(maxRest int) []string {
 	return out
 }
 
+// ---- part 1c: values with tab-indented lines (first line and later lines) ----
+
+var tabLines = []string{"\ta", "\t\ta", " \ta", "\t a", "\t"}
+var tabFirsts = []string{"a", "", "\ta", "\t a", " \ta", "\t"}
+
+// first line from tabFirsts, then 0..maxRest further lines over tabLines and plainLines; at least one line of the value
+// (the first or a later one) contains a tab; with and without a trailing "\n", de-duplicated as strings.
+func tabValues(maxRest int) []string {
+	var out []string
+	seen := map[string]bool{}
+	var rec func(cur []string, tabs int)
+	rec = func(cur []string, tabs int) {
+		if tabs > 0 {
+			for _, nl := range []string{"", "\n"} {
+				if v := strings.Join(cur, "\n") + nl; !seen[v] {
+					seen[v] = true
+					out = append(out, v)
+				}
+			}
+		}
+		if len(cur) == maxRest+1 {
+			return
+		}
+		for _, l := range tabLines {
+			rec(append(cur[:len(cur):len(cur)], l), tabs+1)
+		}
+		for _, l := range plainLines {
+			rec(append(cur[:len(cur):len(cur)], l), tabs)
+		}
+	}
+	for _, f := range tabFirsts {
+		rec([]string{f}, strings.Count(f, "\t"))
+	}
+	return out
+}
+
 // ---- part 2: encoder, 1..3 structs ----
 
 type S struct {
@@ -557,6 +593,191 @@ func (w *worker) encoderMixed(kinds []int, types string, off int) {
 	}
 }
 
+// ---- part 2c: one Encoder, 2..3 structs of which at least one converts to a paragraph without fields ----
+
+type O struct {
+	A string
+	B string
+}
+
+type P struct {
+	C string
+	D string
+}
+
+// an element of a sequence: typ 'O' or 'P' with the field values v (both empty: a field-less paragraph), or typ 'R':
+// struct{control.Paragraph} around the zero Paragraph (field-less as well)
+type emptyElem struct {
+	typ byte
+	v   S
+}
+
+func (e emptyElem) empty() bool { return e.v == S{} }
+func (e emptyElem) String() string {
+	if e.typ == 'R' {
+		return "struct{control.Paragraph}{}"
+	}
+	return fmt.Sprintf("%c%q", e.typ, []string{e.v.A, e.v.B})
+}
+
+// the non-empty field values (first member, second member) of the O and P elements
+var emptyPool = []S{{"a", ""}, {"", "b"}, {"a\n a", "b"}, {"x\n\ny\n", ""}, {"\tt\n\tu", "v"}, {"e", "f\n#g"}}
+
+func emptyElems() []emptyElem {
+	out := []emptyElem{{'O', S{}}, {'P', S{}}, {'R', S{}}}
+	for _, t := range []byte{'O', 'P'} {
+		for _, v := range emptyPool {
+			out = append(out, emptyElem{t, v})
+		}
+	}
+	return out
+}
+
+// the modes a sequence is handed to one Encoder in: one Encode call per struct (by value, by pointer), and for sequences
+// of one struct type also one call with the slice (control.Marshal) and, for 3 elements, slice of 2 + struct / struct + slice of 2
+func emptyModes(es []emptyElem) []string {
+	modes := []string{"value", "pointer"}
+	for _, e := range es {
+		if e.typ != es[0].typ || e.typ == 'R' {
+			return modes
+		}
+	}
+	modes = append(modes, "Marshal(slice)")
+	if len(es) == 3 {
+		modes = append(modes, "slice[0:2]+value", "value+slice[1:3]")
+	}
+	return modes
+}
+
+func (w *worker) encoderEmpty(es []emptyElem, mode string) {
+	var want []control.Paragraph
+	var wantO []O
+	var names []string
+	onlyO := true
+	structs := make([]interface{}, len(es)) // by value
+	ptrs := make([]interface{}, len(es))
+	for i, e := range es {
+		names = append(names, e.String())
+		switch e.typ {
+		case 'O':
+			o := O{e.v.A, e.v.B}
+			structs[i], ptrs[i] = o, &o
+		case 'P':
+			o := P{e.v.A, e.v.B}
+			structs[i], ptrs[i] = o, &o
+		default:
+			o := rawPara{}
+			structs[i], ptrs[i] = o, &o
+		}
+		if e.empty() {
+			continue
+		}
+		f1, f2 := "A", "B"
+		if e.typ == 'P' {
+			f1, f2 = "C", "D"
+			onlyO = false
+		} else {
+			wantO = append(wantO, O{e.v.A, e.v.B})
+		}
+		p := control.Paragraph{Values: map[string]string{}}
+		if e.v.A != "" {
+			p.Order = append(p.Order, f1)
+			p.Values[f1] = e.v.A
+		}
+		if e.v.B != "" {
+			p.Order = append(p.Order, f2)
+			p.Values[f2] = e.v.B
+		}
+		want = append(want, p)
+	}
+	slice := func(lo, hi int) interface{} {
+		if es[0].typ == 'O' {
+			var o []O
+			for _, x := range structs[lo:hi] {
+				o = append(o, x.(O))
+			}
+			return o
+		}
+		var o []P
+		for _, x := range structs[lo:hi] {
+			o = append(o, x.(P))
+		}
+		return o
+	}
+	var calls []interface{}
+	switch mode {
+	case "value":
+		calls = structs
+	case "pointer":
+		calls = ptrs
+	case "Marshal(slice)":
+		calls = []interface{}{slice(0, len(es))}
+	case "slice[0:2]+value":
+		calls = []interface{}{slice(0, 2), structs[2]}
+	default:
+		calls = []interface{}{structs[0], slice(1, 3)}
+	}
+	in := fmt.Sprintf("one Encoder, %s, structs in order %v (%d with at least one field: %s)", mode, names, len(want), show(want...))
+	if len(want) == 0 {
+		w.parts["encoder-empty-trivial"]++ // only field-less paragraphs: nothing to read back
+	} else {
+		w.count("encoder-empty", in)
+	}
+	w.part = "encoder-empty"
+	var b bytes.Buffer
+	var err error
+	call := -1
+	if pan := guard(func() {
+		if mode == "Marshal(slice)" {
+			err = control.Marshal(&b, calls[0])
+			return
+		}
+		var enc *control.Encoder
+		if enc, err = control.NewEncoder(&b); err != nil {
+			return
+		}
+		for i, a := range calls {
+			call = i
+			if err = enc.Encode(a); err != nil {
+				return
+			}
+		}
+	}); pan != "" || err != nil {
+		w.fail("encoder-error", in, fmt.Sprintf("call %d: panic=%q err=%v", call, pan, err))
+		return
+	}
+	text := b.String()
+	var got []control.Paragraph
+	var e1 error
+	if pan := guard(func() { got, e1 = w.read(text) }); pan != "" || e1 != nil {
+		w.fail("encoder-readback-error", in, fmt.Sprintf("text %q (%d structs encoded, %d of them with fields): panic=%q All err=%v", text, len(es), len(want), pan, e1))
+		return
+	}
+	if len(got) != len(want) {
+		w.fail("encoder-paragraph-count", in, fmt.Sprintf("encoded %d structs, %d of them with at least one field, as %q; read back %d paragraphs %s", len(es), len(want), text, len(got), show(got...)))
+		return
+	}
+	for _, key := range classify(want, got, false, "encoder-readback-differs") {
+		w.fail(key, in, fmt.Sprintf("encoded %d structs as %q; read back %s", len(es), text, show(got...)))
+	}
+	if onlyO && len(want) > 0 {
+		var back []O
+		var e2 error
+		if pan := guard(func() { e2 = control.Unmarshal(&back, w.of(text)) }); pan != "" || e2 != nil || len(back) != len(wantO) {
+			w.fail("encoder-paragraph-count", in, fmt.Sprintf("encoded %d structs with fields as %q; Unmarshal(&[]O): panic=%q err=%v, %d structs %q", len(wantO), text, pan, e2, len(back), back))
+			return
+		}
+		var wantStruct, viaStruct []control.Paragraph
+		for i := range back {
+			wantStruct = append(wantStruct, control.Paragraph{Order: []string{"A", "B"}, Values: map[string]string{"A": wantO[i].A, "B": wantO[i].B}})
+			viaStruct = append(viaStruct, control.Paragraph{Order: []string{"A", "B"}, Values: map[string]string{"A": back[i].A, "B": back[i].B}})
+		}
+		for _, key := range classify(wantStruct, viaStruct, false, "encoder-readback-differs") {
+			w.fail(key, in, fmt.Sprintf("encoded as %q; Unmarshal(&[]O) gave %q", text, back))
+		}
+	}
+}
+
 // ---- part 3: documents of C07's model accepted by the reader: read-write-read identity ----
 
 type rawPara struct{ control.Paragraph }
@@ -778,6 +999,56 @@ func main() {
 		}
 	})
 
+	// part 1c: tab-indented lines
+	tabVals := tabValues(3)
+	tabPairVals := tabValues(1)
+	tabOthers := []string{"b", "b\n c\n", "\tb", "b\n\tc", "\tb\n\tc\n", " b\n\n", "b\n\t\n", ""}
+	jobs = append(jobs, func(w *worker) {
+		for _, v := range tabVals {
+			w.cycles("1-field-tab", control.Paragraph{Order: []string{"A"}, Values: map[string]string{"A": v}})
+		}
+	}, func(w *worker) {
+		for _, v := range tabVals {
+			w.cycles("3-field-tab", control.Paragraph{Order: []string{"Source", "Rules", "Section"}, Values: map[string]string{"Source": "foo", "Rules": v, "Section": "misc"}})
+		}
+	}, func(w *worker) {
+		for _, v := range tabPairVals {
+			for _, o := range tabOthers {
+				w.cycles("2-field-tab", control.Paragraph{Order: []string{"B", "A"}, Values: map[string]string{"B": v, "A": o}})
+				w.cycles("2-field-tab", control.Paragraph{Order: []string{"B", "A"}, Values: map[string]string{"B": o, "A": v}})
+			}
+			for _, v2 := range tabPairVals {
+				w.cycles("2-field-tab", control.Paragraph{Order: []string{"B", "A"}, Values: map[string]string{"B": v, "A": v2}})
+			}
+		}
+	})
+
+	// part 2c: every sequence of 2..3 elements with at least one field-less one, in every mode
+	elems := emptyElems()
+	emptySeqs := 0
+	for _, e0 := range elems {
+		e0 := e0
+		var seqs [][]emptyElem
+		for _, e1 := range elems {
+			if e0.empty() || e1.empty() {
+				seqs = append(seqs, []emptyElem{e0, e1})
+			}
+			for _, e2 := range elems {
+				if e0.empty() || e1.empty() || e2.empty() {
+					seqs = append(seqs, []emptyElem{e0, e1, e2})
+				}
+			}
+		}
+		emptySeqs += len(seqs)
+		jobs = append(jobs, func(w *worker) {
+			for _, es := range seqs {
+				for _, mode := range emptyModes(es) {
+					w.encoderEmpty(es, mode)
+				}
+			}
+		})
+	}
+
 	// part 2b: every sequence of 2..3 call kinds x struct types per call x pool offset
 	nk := len(callKinds)
 	for k0 := 0; k0 < nk; k0++ {
@@ -890,16 +1161,33 @@ func main() {
 		enc.Encode(&[]S{mixedPool[5]})
 		samples = append(samples, map[string]interface{}{"encoder_mixed_calls": "Encode([]S{{a,\"\"},{\"a\\n a\",b}}); Encode(T{\"x\\n#y\",\"\"}); Encode(&[]S{{e,f}})", "written": b.String()})
 	}
+	for _, v := range []string{"\tleading tab", "\tmake install\n\tmake clean\n", "a\n\t\tb\n\t\n \tc"} {
+		p := control.Paragraph{Order: []string{"Source", "Rules"}, Values: map[string]string{"Source": "foo", "Rules": v}}
+		t, _ := write(p)
+		back, err := (&worker{}).read(t)
+		samples = append(samples, map[string]interface{}{"paragraph": show(p), "written": t, "read_back": show(back...), "err": fmt.Sprint(err)})
+	}
+	{
+		var b bytes.Buffer
+		enc, _ := control.NewEncoder(&b)
+		enc.Encode(O{"a", ""})
+		enc.Encode(O{})
+		enc.Encode(&P{"", "d"})
+		back, err := (&worker{}).read(b.String())
+		samples = append(samples, map[string]interface{}{"encoder_with_field_less_struct": "Encode(O{a,\"\"}); Encode(O{}); Encode(&P{\"\",d})", "written": b.String(), "read_back": show(back...), "err": fmt.Sprint(err)})
+	}
 	samples = append(samples, map[string]interface{}{"model_document": docs[7]}, map[string]interface{}{"model_document": docs[len(docs)-3]})
 
 	out := map[string]interface{}{
 		"bound": fmt.Sprintf("(1) Paragraphs with 1 field (A) over all %d values and with 2 fields (B then A) over all pairs of %d values. Values = line sequences of length 1..4 (pairs: 1..%d) over {\"\", \"a\", \" a\", \".\", \"a \", \" \"} joined by \"\\n\", with and without a trailing \"\\n\", de-duplicated as strings; values whose first line is empty (or only blanks) and that have further lines are included since the WriteTo repair of this session (%d were left out before, wrongly). Each paragraph goes through 3 cycles of WriteTo + NewParagraphReader.All. ", len(vals), len(pairVals), map[bool]int{true: 4, false: 3}[thorough], skipped) +
 			"Equality after the first read: same Order, same key set, per field the same logical lines, where logical lines = value minus one trailing \"\\n\", split at \"\\n\", each line right-trimmed of space/tab/CR (the reader trims lines on the right). From the second cycle on (input produced by the reader): same Order, values byte-identical up to one trailing \"\\n\". Texts: text3 == text2 byte for byte, text2 == text1 after right-trimming every line, len(text2) <= len(text1). Every written paragraph text must end in \"\\n\" and contain no empty or whitespace-only line. The value sets include every value ending in 1..3 empty lines (e.g. \"a\\n\\n\", \"a\\n\\n\\n\", \"a\\n a\\n\\n\"; pairs and encoder: 1..2 resp. 1); a read-back that only lacks such empty last lines is reported as trailing-blank-lines-lost. " +
 			fmt.Sprintf("(1b) ADDED lines starting with '#': values = first line from %q followed by 1..3 (pairs: 1..2) further lines over %q and %q of which at least one is from the first set (a '#' directly at the start of the line or after 1..2 blanks / a tab of extra indentation), with and without a trailing \"\\n\", de-duplicated as strings: %d values as the only field A, the same %d values as the middle field of {Package: foo, Description: v, Section: misc}, and %d values paired in both orders (B then A) with each of %q; same 3 cycles and the same equalities as (1): every such line has to come back as a line of the value. ", hashFirsts, hashLines, plainLines, len(hashVals), len(hashVals), len(hashPairVals), others) +
+			fmt.Sprintf("(1c) ADDED tab-indented lines: values = first line from %q followed by 0..3 (pairs: 0..1) further lines over %q and %q, at least one line of the value (the FIRST or a later one) containing a tab (tab directly at the start, two tabs, blank+tab, tab+blank, a line that is only a tab), with and without a trailing \"\\n\", de-duplicated as strings: %d values as the only field A, the same %d values as the middle field of {Source: foo, Rules: v, Section: misc}, and %d values paired (B then A) with each other and in both orders with each of %q; same 3 cycles and the same equalities as (1): a leading tab of the first line and of every later line has to come back (first-line-indent-lost otherwise). ", tabFirsts, tabLines, plainLines, len(tabVals), len(tabVals), len(tabPairVals), tabOthers) +
 			fmt.Sprintf("(2) Encoder: sequences of 1, 2 (all ordered pairs) of %d structs S{A string `required:\"true\"`; B string} and 3 (all ordered triples of an evenly spaced subset of %d of them); A over the %d values of 1..2 lines, B over those plus \"\"%s; written with NewEncoder(w).Encode one after another, read back with All and with Unmarshal(&[]S): same number of paragraphs, A always present, B present iff non-empty, same logical lines. ", len(structs), len(triples), len(encVals), map[bool]string{true: "", false: " (quick: every (A,B) grid point with (i+j)%7==0 plus all B==\"\")"}[thorough]) +
 			fmt.Sprintf("(2b) ADDED mixed Encode calls on one Encoder: every sequence of 2 and of 3 calls over the %d argument kinds %v (struct value, pointer to struct, slice and pointer to slice with 0, 1, 2 elements; []0 is a nil slice, *[]0 points to an empty one), every assignment of the struct types S{A required; B} / T{C required; D} to the calls (2^len), and %d rotations of the value pool %q handed out in writing order (values include multi-line, empty-line, indented-first-line and '#'-line values): no Encode error; the text reads back (All) as exactly as many paragraphs as structs were encoded, in order, with the field names of the respective type and the same logical lines; when all calls use S also Unmarshal(&[]S) gives that many structs with the same lines; sequences of empty slices only must write nothing (counted as encoder-mixed-trivial, not as evaluations). ", len(callKinds), kindNames(), len(mixedPool), mixedPool) +
+			fmt.Sprintf("(2c) ADDED structs that convert to a paragraph WITHOUT fields: every sequence of 2 and of 3 elements with at least one field-less element at any position (%d sequences) over the %d elements {O{}, P{}, struct{control.Paragraph}{} (all field-less)} + {O, P} x member values %q, for O{A; B} / P{C; D} without required members (a member is written iff non-empty); each sequence on one Encoder as one Encode call per struct by value and by pointer, and for sequences of one struct type also as control.Marshal of the slice and (3 elements) as slice of the first two + struct and struct + slice of the last two: no Encode error; the text reads back (All) without error as exactly as many paragraphs as encoded structs have at least one field, in order, with those fields and the same logical lines (a lost separator around a field-less paragraph gives a duplicate-field error or merged paragraphs); when all structs with fields are O also Unmarshal(&[]O) gives that many structs with the same lines; sequences of field-less structs only must read back as 0 paragraphs (counted as encoder-empty-trivial, not as evaluations). ", emptySeqs, len(elems), emptyPool) +
 			"(3) C07 model documents (fields 'Name:'+[' '+first], first line in {\"\",\"x\",\"x y \"}, 0..2 continuation lines from {\"  x\",\"\\tz\",\" .\",\" x \"}; LF/CRLF; with/without final newline): M1 = 1 paragraph of 1..2 fields named A,B with a '# c' comment at no/every line position, and with one leading blank line; M2 = 2 one-field paragraphs separated by 1..2 blank lines. Each document accepted by the reader is written through the encoder (struct{control.Paragraph}) and read again: identical paragraphs (values byte-identical up to one trailing \"\\n\"), and a second write gives the same text.",
-		"rule":                fmt.Sprintf("Nested exhaustive enumeration of the stated domains (1), (1b), (2), (2b), (3); every case runs the real WriteTo/Encoder/ParagraphReader/Unmarshal. evaluations by part: %v. distinct_nontrivial = distinct (part, input) pairs by 64-bit FNV hash; every case is non-trivial (at least one field written and read back; model documents count only when the reader accepted them and returned >= 1 paragraph).", parts),
+		"rule":                fmt.Sprintf("Nested exhaustive enumeration of the stated domains (1), (1b), (1c), (2), (2b), (2c), (3); every case runs the real WriteTo/Encoder/ParagraphReader/Unmarshal. evaluations by part: %v. distinct_nontrivial = distinct (part, input) pairs by 64-bit FNV hash; every case is non-trivial (at least one field written and read back; model documents count only when the reader accepted them and returned >= 1 paragraph).", parts),
 		"failure_counts":      counts,
 		"evaluations":         evals,
 		"distinct_nontrivial": distinct,
